@@ -1,0 +1,74 @@
+//go:build verif
+
+// Verification hook for property C14 (/verif): exports construction of the directory cache, a
+// synchronous clean, the path computations and the marking calls, for in-process exploration.
+// Add-only; nothing here is compiled into a normal build.
+
+package cache
+
+import (
+	"github.com/thought-machine/please/src/core"
+	"github.com/thought-machine/please/src/fs"
+)
+
+// VerifDirCache wraps the unexported dirCache.
+type VerifDirCache struct{ c *dirCache }
+
+// VerifNewDirCache runs newDirCache with background cleaning switched off.
+func VerifNewDirCache(dir string, compress bool) *VerifDirCache {
+	config := core.DefaultConfiguration()
+	config.Cache.Dir = dir
+	config.Cache.DirClean = false
+	config.Cache.DirCompress = compress
+	return &VerifDirCache{c: newDirCache(config)}
+}
+
+// Clean is dirCache.clean, run synchronously.
+func (v *VerifDirCache) Clean(high, low uint64) uint64 { return v.c.clean(high, low) }
+
+// ShouldClean is dirCache.shouldClean.
+func (v *VerifDirCache) ShouldClean(name string, isDir bool) bool { return v.c.shouldClean(name, isDir) }
+
+// Path is the final location of an entry (getPath).
+func (v *VerifDirCache) Path(target *core.BuildTarget, key []byte) string {
+	return v.c.getPath(target, key, "")
+}
+
+// TmpPath is the location Store assembles an entry at before renaming it into place.
+func (v *VerifDirCache) TmpPath(target *core.BuildTarget, key []byte) string {
+	return v.c.getFullPath(target, key, "", "=")
+}
+
+// Store and Retrieve are the public operations.
+func (v *VerifDirCache) Store(target *core.BuildTarget, key []byte, files []string) {
+	v.c.Store(target, key, files)
+}
+
+func (v *VerifDirCache) Retrieve(target *core.BuildTarget, key []byte, outs []string) bool {
+	return v.c.Retrieve(target, key, outs)
+}
+
+// BeginStore performs the steps of Store that precede the writing of the files (mark the
+// entry, remove its previous version) and returns the temporary location the files go to:
+// the state a concurrent clean() observes while a Store is in progress.
+func (v *VerifDirCache) BeginStore(target *core.BuildTarget, key []byte) (cacheDir, tmpDir string, err error) {
+	cacheDir = v.c.getPath(target, key, "")
+	tmpDir = v.c.getFullPath(target, key, "", "=")
+	v.c.markDir(cacheDir, 0)
+	err = fs.RemoveAll(cacheDir)
+	return cacheDir, tmpDir, err
+}
+
+// Marks returns a copy of the marked-path map.
+func (v *VerifDirCache) Marks() map[string]uint64 {
+	v.c.mutex.Lock()
+	defer v.c.mutex.Unlock()
+	out := make(map[string]uint64, len(v.c.added))
+	for k, s := range v.c.added {
+		out[k] = s
+	}
+	return out
+}
+
+// GracePeriod is accessTimeGracePeriod.
+const VerifAccessTimeGracePeriod = accessTimeGracePeriod
